@@ -89,6 +89,9 @@ impl<'t> Worker<'t> {
     ///
     /// It will panic when [`Self::init_connid_counter()`] has never been called.
     pub fn update_connid_counts(&mut self) {
+        if self.sent.chars().is_empty() {
+            return;
+        }
         self.lattice
             .add_connid_counts(self.counter.as_mut().unwrap());
     }
